@@ -447,6 +447,18 @@ def run(tier):
     ctx.extra["program_status"] = statuses
     literal_lemmas(ctx, tier)
     hex_threshold(ctx)
+    # the converted numeric / string built-ins are contracts in the two machines (same function on both sides): INT and
+    # HEX$ are discharged here on the text of the runtime library (vf/props/contracts.py)
+    from vf.core import ContractCtx
+    from vf.props import contracts
+    from vf.tv import lib as _tvlib
+
+    _lib = _tvlib.load_library()
+    cctx = ContractCtx(ctx)
+    contracts.check_int(cctx, _lib)
+    contracts.check_hex_digit(cctx, _lib)
+    contracts.check_hex_length(cctx, _lib)
+    ctx.bounds["contracts_discharged"] = ["ecb_int = floor (|v| <= 1e5, not within 1e-9 below an integer)", "_ecb_hex_digit = hex digit 0..15", "ecb_hex: number of digits for 0..65535"]
     ctx.add_solver_stats(smt.STATS.export())
     ctx.extra["solver"] = {"z3": smt.z3_version()}
     ctx.explanation = "see level text; programs = family members converted by the real tool and compared by the two symbolic machines"
